@@ -43,6 +43,12 @@ def cases(tier, seed):
     yield {"u": [["p", "q"], ["p", "r"]], "x": [["p", "s"], ["p"]], "xe": [1, -1], "target": "qrs", "deltas": False}
     yield {"u": [["q", "p"], ["r", "p"]], "x": [["p", "s"], ["p", "s"]], "xe": [1, -1], "target": "qr", "deltas": True}
     yield {"u": [["p", "q"], ["p", "r"]], "x": [["q"], ["r"]], "target": "qr", "deltas": True, "second_term": True}
+    # a sum as remainder (unexpanded input): when the generated delta is 1 the product falls apart
+    # into several terms
+    for deltas in (False, True):
+        yield {"u": [["p", "q"], ["p", "q"]], "x": [], "target": "qr", "deltas": deltas, "poly": "r"}
+        yield {"u": [["p", "q"], ["p", "q"], ["s", "r"], ["s", "r"]], "x": [], "target": "qr", "deltas": deltas, "poly": "r"}
+        yield {"u": [["p", "q"], ["p", "r"]], "x": [], "target": "qr", "deltas": deltas, "poly": "q"}
     for _ in range(150 if tier == "quick" else 3000):
         nu = rng.randint(2, 4)
         us = [rng.sample(NAMES[:5], 2) for _ in range(nu)]
@@ -51,6 +57,8 @@ def cases(tier, seed):
         tgt = "".join(rng.sample(used, rng.randint(0, min(3, len(used))))) if rng.random() < 0.7 else None
         case = {"u": us, "x": xs, "target": tgt, "deltas": rng.random() < 0.5}
         case["second_term"] = rng.random() < 0.4
+        if tgt and rng.random() < 0.25:
+            case["poly"] = tgt[0]
         if xs and rng.random() < 0.4:
             # remainder objects in the denominator / with powers
             case["xe"] = [rng.choice([1, -1, -1, 2]) for _ in xs]
@@ -63,6 +71,9 @@ def check(case):
     xe = case.get("xe") or [1] * len(case["x"])
     fs += [NonSymmetricTensor(f"X{n}", tuple(idx[k] for k in t)) ** xe[n] for n, t in enumerate(case["x"])]
     term = Mul(*fs)
+    if case.get("poly") and case["target"]:
+        t_ = idx[case["poly"]]
+        term = term * (NonSymmetricTensor("Za", (t_,)) + NonSymmetricTensor("Zb", (t_,)))
     if case["target"] is None:
         e = Expr(term)
         targets = list(e.terms[0].target)
@@ -71,7 +82,17 @@ def check(case):
         if case.get("second_term") and targets:
             # a second term over the target indices: the expression is a sum
             term = term + NonSymmetricTensor("Z", tuple(targets))
-        e = Expr(term, target_idx=targets)
+        if len(str(case)) % 2:
+            # targets given by name (a list obtained from an earlier request for the same names was
+            # emptied by its owner: requests are independent of each other)
+            names = "".join(s.name for s in targets)
+            get_symbols(names).clear()
+            e = Expr(term, target_idx=names)
+            if set(e.provided_target_idx or ()) != set(targets):
+                return False, (f"target indices given by the names {names!r} are {e.provided_target_idx} after an "
+                               "earlier result of get_symbols for the same names was emptied")
+        else:
+            e = Expr(term, target_idx=targets)
     res = simplify_unitary(e, "U", evaluate_deltas=case["deltas"])
     if case["deltas"]:
         # delta evaluation is only specified (C09) when every contracted
@@ -102,6 +123,6 @@ CHECKS = {
     "simplify_unitary.value": {
         "function": "adcgen.simplify:simplify_unitary.simplify_term_unitary",
         "cases": cases, "check": check,
-        "bound": "products of 2-4 unitary tensors (repeats = powers) with <= 2 remainder tensors (exponents 1, 2, -1) over 6 general index names, Einstein or explicit targets, optionally a second term (sum), evaluate_deltas on/off; rational orthogonal 4x4 matrix, all target assignments",
+        "bound": "products of 2-4 unitary tensors (repeats = powers) with <= 2 remainder tensors (exponents 1, 2, -1) over 6 general index names, Einstein or explicit targets, optionally a second term (sum) or an unexpanded sum as remainder factor, evaluate_deltas on/off; rational orthogonal 4x4 matrix, all target assignments",
     },
 }
